@@ -31,6 +31,11 @@ pub struct Profile {
     pub public_handshake: bool,
     /// per-mille chance per round to add offending by-reference proposals (C10)
     pub p_offend: u64,
+    /// C14: every member picks one of the three shipped providers at random; `suite` is the group's cipher suite
+    pub mixed_providers: bool,
+    pub suite: u16,
+    /// suites to cycle through, one per history
+    pub suites: Vec<u16>,
 }
 
 impl Profile {
@@ -53,6 +58,9 @@ impl Profile {
             options_mix: true,
             public_handshake: false,
             p_offend: 0,
+            mixed_providers: false,
+            suite: 1,
+            suites: vec![1],
         }
     }
 }
@@ -149,7 +157,7 @@ pub fn canon_tree(t: &[ANode], known: &BTreeSet<usize>) -> Vec<ANode> {
 /// (independent of the library's incremental cache; only the node encodings come from the library).
 pub fn independent_tree_hash(nodes: &[Option<Node>], suite: u16) -> Vec<u8> {
     use mls_rs::mls_rs_codec::MlsEncode;
-    let cs = mls_rs_crypto_rustcrypto::RustCryptoProvider::default().cipher_suite_provider(CipherSuite::from(suite)).unwrap();
+    let cs = crate::anyprov::cs_for(suite);
     let n_leaves = (nodes.len() / 2 + 1).next_power_of_two();
     fn vb(b: &[u8]) -> Vec<u8> {
         let mut v = crate::c13::varint(b.len());
@@ -218,6 +226,14 @@ impl<'a, C: MlsConfig> Hist<'a, C> {
         if self.prof.sqlite_mix {
             s.sqlite = self.rng.chance(1, 2);
         }
+        s.suite = self.prof.suite;
+        if self.prof.mixed_providers {
+            // only providers that ship the group's suite
+            let ok: Vec<u8> = (0..3u8)
+                .filter(|i| crate::anyprov::AnyProvider::by_index(*i).cipher_suite_provider(CipherSuite::from(s.suite)).is_some())
+                .collect();
+            s.provider = *self.rng.pick(&ok);
+        }
         let h = handles(&s, &self.w.crypto_log, &self.w.scratch);
         let (id, sk) = make_identity(&s.name, s.suite);
         for (id, val) in &self.w.psks {
@@ -225,8 +241,10 @@ impl<'a, C: MlsConfig> Hist<'a, C> {
         }
         let client = (self.mk)(&s, &h, id, sk);
         self.w.log(format!(
-            "client {} store={} R={} tree_ext={} single_welcome={} path_required={} enc_ctl={}",
+            "client {} provider={} suite={} store={} R={} tree_ext={} single_welcome={} path_required={} enc_ctl={}",
             s.name,
+            crate::anyprov::PROVIDER_NAMES[(s.provider % 3) as usize],
+            s.suite,
             if s.sqlite { "sqlite" } else { "mem" },
             s.retention,
             s.tree_ext as u8,
@@ -234,6 +252,9 @@ impl<'a, C: MlsConfig> Hist<'a, C> {
             s.path_required as u8,
             s.enc_ctl as u8
         ));
+        if self.prof.mixed_providers {
+            self.rep.cover.insert(format!("suite={}:provider={}", s.suite, crate::anyprov::PROVIDER_NAMES[(s.provider % 3) as usize]));
+        }
         self.w.members.push(Member { identity: s.name.as_bytes().to_vec(), setup: s, h, client, group: None, ghosts: vec![], wrote: false });
         self.w.members.len() - 1
     }
@@ -1038,7 +1059,7 @@ impl<'a, C: MlsConfig> Hist<'a, C> {
             match g.group_info_message_allowing_ext_commit(true) {
                 Ok(gi) => {
                     let ext = mls_rs::external_client::ExternalClient::builder()
-                        .crypto_provider(mls_rs_crypto_rustcrypto::RustCryptoProvider::default())
+                        .crypto_provider(crate::anyprov::provider_for(self.w.members[c].setup.suite))
                         .identity_provider(mls_rs::identity::basic::BasicIdentityProvider)
                         .build();
                     match std::panic::catch_unwind(std::panic::AssertUnwindSafe(|| ext.observe_group(gi, None, None))) {
@@ -1119,9 +1140,7 @@ impl<'a, C: MlsConfig> Hist<'a, C> {
         }
         let _ = cleaf;
         // C09: every stored private key opens what is sealed to the public key at that node; none for a blank
-        let cs = mls_rs_crypto_rustcrypto::RustCryptoProvider::default()
-            .cipher_suite_provider(CipherSuite::from(self.w.members[c].setup.suite))
-            .unwrap();
+        let cs = crate::anyprov::cs_for(self.w.members[c].setup.suite);
         for &i in &now {
             let n = self.w.members[i].setup.name.clone();
             let (leaf, keys) = self.w.group(i).verif_private_tree();
@@ -1294,10 +1313,12 @@ pub fn run_histories(o: &Opts, prof: Profile, n: u64, stem: &str, focus: &[&'sta
         let log: SharedCryptoLog = Default::default();
         let w = new_world(log, "/tmp/vharness-scratch");
         let mk = |s: &Setup, hd: &Handles, id, sk| mk_client(s, hd, id, sk);
+        let mut hprof = prof.clone();
+        hprof.suite = hprof.suites[(h as usize) % hprof.suites.len()];
         let mut hist = Hist {
             w,
             rng: Rng::new(hseed),
-            prof: prof.clone(),
+            prof: hprof,
             rep: Report::default(),
             mk: &mk,
             next_name: 0,
@@ -1368,6 +1389,8 @@ pub fn run(o: &Opts) -> i32 {
     prof.rounds = o.u64("rounds", prof.rounds as u64) as usize;
     prof.sqlite_mix = o.get("sqlite").is_some();
     prof.p_offend = o.u64("offend", 0);
+    prof.mixed_providers = o.get("providers") == Some("mixed");
+    prof.suites = o.str("suites", "1").split(',').filter_map(|x| x.parse().ok()).collect();
     prof.max_members = o.u64("members", prof.max_members as u64) as usize;
     if o.get("removal_bias").is_some() {
         prof.p_remove = 550;
